@@ -11,6 +11,29 @@ use crate::model::{AnnFact, Facts, Mode, RefOnt};
 use crate::space::{all_dags, permutations, Dag};
 use serde_json::json;
 
+/// Flag pattern derived from the annotated subset: every second annotated non-root term is obsolete,
+/// the last term (if not a root) names the first term as replacement. Flags do not change any link.
+fn flag_terms(f: &mut Facts, s: u32) {
+    let n = f.terms.len();
+    let first = f.terms[0].id;
+    let mut toggle = s % 2 == 0;
+    for i in 0..n {
+        let id = f.terms[i].id;
+        if id == 1 || id == 118 {
+            continue;
+        }
+        if s >> i & 1 == 1 {
+            if toggle {
+                f.terms[i].obsolete = true;
+            }
+            toggle = !toggle;
+        }
+        if i == n - 1 && s % 3 == 0 {
+            f.terms[i].replacement = Some(first);
+        }
+    }
+}
+
 fn inherits(d: &Dag, s: u32) -> bool {
     (0..d.n).any(|i| s >> i & 1 == 1 && d.parents[i] != 0)
 }
@@ -149,6 +172,75 @@ pub fn explore(ctx: &mut Ctx, label: &str) {
         }
     }
 
+    // ---- the same numeric record id in all three kinds, annotated to the same terms: kinds must not leak,
+    // adjacent rows / calls with equal (id, term) but different kind must all count
+    for n in 2..=3usize {
+        let dags = all_dags(n);
+        ctx.space(&format!("{label}/shared-ids-across-kinds/D{n}"), &format!("{} labelled DAGs over {:?} x subsets S with 1 <= |S| <= 2: gene 7, OMIM 7 and ORPHA 7 all annotated to S (and gene 8 / OMIM 8 / ORPHA 8 to the complement); Builder: all orders of the 3|S| facts; text: all orders of the disease rows, both loaders; binary v3", dags.len(), &POOL_ROOTS[..n]));
+        for d in &dags {
+            for s in 1..(1u32 << n) {
+                if s.count_ones() > 2 {
+                    continue;
+                }
+                if !ctx.take() {
+                    continue;
+                }
+                ctx.state();
+                if inherits(d, s) {
+                    ctx.nontrivial();
+                }
+                let mut base = Facts::from_dag(d, &POOL_ROOTS);
+                base.version = (2024, 2, 29);
+                let ids: Vec<u32> = base.terms.iter().map(|t| t.id).collect();
+                let full = (1u32 << n) - 1;
+                let mut main: Vec<AnnFact> = vec![];
+                let mut rest: Vec<AnnFact> = vec![];
+                for (kind, name) in [(crate::model::Kind::Omim, "Seven (omim)"), (crate::model::Kind::Orpha, "Seven (orpha)"), (crate::model::Kind::Gene, "SEVEN")] {
+                    for i in 0..n {
+                        if s >> i & 1 == 1 {
+                            main.push(Facts::ann(kind, 7, name, Some(ids[i])));
+                        } else if (full & !s) >> i & 1 == 1 {
+                            rest.push(Facts::ann(kind, 8, &format!("{name} 8"), Some(ids[i])));
+                        }
+                    }
+                }
+                let all: Vec<AnnFact> = main.iter().chain(rest.iter()).cloned().collect();
+                let r = RefOnt::derive(&Facts { anns: all.clone(), ..base.clone() });
+                // Builder: every order of the main facts
+                for p in permutations(main.len()) {
+                    let anns: Vec<AnnFact> = p.iter().map(|i| main[*i].clone()).chain(rest.iter().cloned()).collect();
+                    let f = Facts { anns, ..base.clone() };
+                    via_builder(ctx, &f, &r, Mode::Defaults, &format!("shared-id facts in order {p:?}"));
+                }
+                // text: every order of the disease rows (the first 2|S| main facts are disease facts)
+                let nd_main = 2 * s.count_ones() as usize;
+                let f = Facts { anns: all.clone(), ..base.clone() };
+                let nd_total = f.anns.iter().filter(|a| a.kind != crate::model::Kind::Gene).count();
+                for p in permutations(nd_main) {
+                    // disease rows in file order = main disease facts (permuted) then the others
+                    let mut order: Vec<usize> = vec![];
+                    let dis_idx: Vec<usize> = (0..f.anns.len()).filter(|i| f.anns[*i].kind != crate::model::Kind::Gene).collect();
+                    let _ = &dis_idx;
+                    for i in &p {
+                        order.push(*i);
+                    }
+                    for i in nd_main..nd_total {
+                        order.push(i);
+                    }
+                    let mut o = JaxOpts::default();
+                    o.disease_row_order = Some(order);
+                    via_jax(ctx, &f, &o, false, &format!("shared-id disease rows in order {p:?}"));
+                    if p[0] == 0 {
+                        via_jax(ctx, &f, &o, true, &format!("shared-id disease rows in order {p:?} (transitive loader)"));
+                    }
+                }
+                via_binary(ctx, &f, &EncOpts::v(3), "shared ids across kinds");
+                ctx.sample(|| json!({"dag": d.describe(), "ids": ids, "S": crate::space::bits(s, n), "shared_record_id": 7}));
+            }
+        }
+        jax::cleanup();
+    }
+
     // ---- binary path (ids contain both roots)
     {
         let n = 4;
@@ -166,6 +258,8 @@ pub fn explore(ctx: &mut Ctx, label: &str) {
                 let mut base = Facts::from_dag(d, &POOL_ROOTS);
                 base.version = (2024, 2, 29);
                 let ids: Vec<u32> = base.terms.iter().map(|t| t.id).collect();
+                // annotated terms may be obsolete and/or replaced: flags follow the annotated subset
+                flag_terms(&mut base, s);
                 let groups = AnnGroups::new(s, &ids);
                 let ident: Vec<usize> = (0..groups.g1.len()).collect();
                 for p in permutations(groups.g1.len()) {
@@ -179,7 +273,10 @@ pub fn explore(ctx: &mut Ctx, label: &str) {
                     for &i in &p {
                         anns.extend(gg[i].iter().cloned());
                     }
+                    anns.push(groups.bare[3].clone());
+                    anns.extend(groups.r2.iter().cloned());
                     anns.extend(groups.r1.iter().cloned());
+                    anns.push(groups.bare[2].clone());
                     anns.push(groups.bare[1].clone());
                     anns.extend(groups.o1.iter().cloned());
                     let f = Facts { anns, ..base.clone() };
@@ -209,6 +306,7 @@ pub fn explore(ctx: &mut Ctx, label: &str) {
                 let mut base = Facts::from_dag(d, &POOL_ROOTS);
                 base.version = (2024, 2, 29);
                 let ids: Vec<u32> = base.terms.iter().map(|t| t.id).collect();
+                flag_terms(&mut base, s);
                 let groups = AnnGroups::new(s, &ids);
                 let k = groups.g1.len();
                 let perms: Vec<Vec<usize>> = if n <= 3 { permutations(k) } else { let mut v = vec![(0..k).collect::<Vec<_>>()]; if k > 1 { v.push((0..k).rev().collect()); } v };
@@ -286,7 +384,7 @@ pub fn explore(ctx: &mut Ctx, label: &str) {
 }
 
 pub fn run(ctx: &mut Ctx) {
-    ctx.rule = "case = (labelled DAG, annotated subset S) with all listed supply orders of the annotation facts; records: genes 11<-S, 22<-complement(S), bare 33; OMIM 600001<-rot1(S), bare 600002; ORPHA 77<-rot2(S); distinct by construction; non-trivial = some annotated term has ancestors (inheritance must happen)".into();
+    ctx.rule = "case = (labelled DAG, annotated subset S) with all listed supply orders of the annotation facts; records: genes 11<-S, 22<-complement(S), bare 33; OMIM 600001<-rot1(S), bare 600002; ORPHA 77<-rot2(S), 78<-every term, bare 79, 80; distinct by construction; non-trivial = some annotated term has ancestors (inheritance must happen)".into();
     ctx.assumptions = vec![
         "one name per record id; acyclic graphs; every annotated term exists".into(),
         "bare records (no term) are not expressible in the JAX text formats and are left out of that path".into(),
